@@ -283,8 +283,8 @@ def tool_part(res, tier, rng, wd):
         ks = list(range(1, (nreads if tier == "thorough" else 8) + 1))
         for op, kmax in (("read", 14), ("write", 30 if tier == "thorough" else 14), ("lseek", 3)):
             for k in range(1, kmax + 1):
-                for kind, sh in (("eio", 1), ("short", 5)):
-                    if op == "lseek" and kind == "short":
+                for kind, sh in (("eio", 1), ("short", 5), ("eintr", 1)):
+                    if op == "lseek" and kind != "eio":
                         continue
                     fault = "%s:%d:%s:%d" % (op, k, kind, sh)
                     if os.path.exists(arch):
@@ -311,8 +311,8 @@ def tool_part(res, tier, rng, wd):
         for mode in ([], ["--header"]):
             for op, kmax in (("read", 14), ("write", 14), ("lseek", 4)):
                 for k in range(1, kmax + 1):
-                    for kind, sh in (("eio", 1), ("short", 3)):
-                        if op == "lseek" and kind == "short":
+                    for kind, sh in (("eio", 1), ("short", 3), ("eintr", 1), ("enospc", 1)):
+                        if op == "lseek" and kind != "eio":
                             continue
                         fault = "%s:%d:%s:%d" % (op, k, kind, sh)
                         for pth in (outp, outp + ".zhr"):
